@@ -960,6 +960,10 @@ impl DiskIO {
         let block = metadata_block(&encoded)?;
         self.write_sectors_sync(FEOX_METADATA_BLOCK, &block)?;
         self.write_sectors_sync(FEOX_METADATA_BACKUP_BLOCK, &block)?;
+        // The signature must be durable before anything else reaches the device: a crash
+        // that kept a later journal or data block but lost both copies would leave a
+        // non-zero file without metadata, which can no longer be opened.
+        self.flush()?;
         *metadata = next;
         Ok(())
     }
